@@ -176,8 +176,8 @@ def PhraseReady (ds : Ds) : Prop :=
   ∃ ix, ds.idx = some ix ∧ ∀ r ∈ ds.rows, r.deleted = false → ix.frags.contains r.frag = true
 
 mutual
-theorem evalQ_spec (h : Consistent ops ds) (x : Nat) : (q : Query) → q.dense ops ds.cfg = true →
-    (q.hasPhrase = true → PhraseReady ds) → (x ∈ evalQ ops ds q ↔ LiveMatch ops ds x (QSpec ops ds.cfg q))
+theorem evalQ_spec (h : Consistent ops ds) (x : Nat) : (q : Query) → q.dense ops ds.effCfg = true →
+    (q.hasPhrase = true → PhraseReady ds) → (x ∈ evalQ ops ds q ↔ LiveMatch ops ds x (QSpec ops ds.effCfg q))
   | .matchQ a text, _, _ => by
     simp only [evalQ]
     exact matchSearch_iff h a text x
@@ -187,6 +187,7 @@ theorem evalQ_spec (h : Consistent ops ds) (x : Nat) : (q : Query) → q.dense o
     rw [phraseSearch_iff h hix]
     simp only [Query.dense, decide_eq_true_eq] at hd
     unfold LiveMatch
+    rw [effCfg_some hix] at hd ⊢
     constructor
     · rintro ⟨r, hr, h1, h2, _, t, ht, hm⟩
       exact ⟨r, hr, h1, h2, t, ht, (phraseSpec_dense _ _ hd).2 hm⟩
@@ -212,8 +213,8 @@ theorem evalQ_spec (h : Consistent ops ds) (x : Nat) : (q : Query) → q.dense o
       apply liveMatch_congr
       intro toks
       simp [QSpec, hm]
-theorem evalAny_spec (h : Consistent ops ds) (x : Nat) : (l : QList) → l.dense ops ds.cfg = true →
-    (l.hasPhrase = true → PhraseReady ds) → (x ∈ evalAny ops ds l ↔ LiveMatch ops ds x (QSpecAny ops ds.cfg l))
+theorem evalAny_spec (h : Consistent ops ds) (x : Nat) : (l : QList) → l.dense ops ds.effCfg = true →
+    (l.hasPhrase = true → PhraseReady ds) → (x ∈ evalAny ops ds l ↔ LiveMatch ops ds x (QSpecAny ops ds.effCfg l))
   | .nil, _, _ => by
     simp only [evalAny, List.not_mem_nil, false_iff]
     exact liveMatch_false x
@@ -225,8 +226,8 @@ theorem evalAny_spec (h : Consistent ops ds) (x : Nat) : (l : QList) → l.dense
     apply liveMatch_congr
     intro toks
     simp [QSpecAny]
-theorem evalAll_spec (h : Consistent ops ds) (x : Nat) : (l : QList) → l.isNil = false → l.dense ops ds.cfg = true →
-    (l.hasPhrase = true → PhraseReady ds) → (x ∈ evalAll ops ds l ↔ LiveMatch ops ds x (QSpecAll ops ds.cfg l))
+theorem evalAll_spec (h : Consistent ops ds) (x : Nat) : (l : QList) → l.isNil = false → l.dense ops ds.effCfg = true →
+    (l.hasPhrase = true → PhraseReady ds) → (x ∈ evalAll ops ds l ↔ LiveMatch ops ds x (QSpecAll ops ds.effCfg l))
   | .nil, hn, _, _ => by simp [QList.isNil] at hn
   | .cons q .nil, _, hd, hp => by
     simp only [QList.dense, Bool.and_eq_true] at hd
@@ -239,7 +240,7 @@ theorem evalAll_spec (h : Consistent ops ds) (x : Nat) : (l : QList) → l.isNil
     simp only [QList.dense, Bool.and_eq_true] at hd
     rw [evalAll]
     simp only [List.mem_filter, List.contains_eq_mem, decide_eq_true_eq]
-    have hd2 : (QList.cons q2 r2).dense ops ds.cfg = true := by simp [QList.dense, hd.2]
+    have hd2 : (QList.cons q2 r2).dense ops ds.effCfg = true := by simp [QList.dense, hd.2]
     rw [evalQ_spec h x q hd.1 (fun hx => hp (by simp [QList.hasPhrase, hx])),
       evalAll_spec h x (.cons q2 r2) rfl hd2 (fun hx => hp (by simp only [QList.hasPhrase, Bool.or_eq_true] at hx ⊢; exact Or.inr hx)),
       liveMatch_and h.wf]
